@@ -208,6 +208,14 @@ func main() {
 		}
 		ok, info := drv.ConfirmDeadlock(sp.Seed, sp.Group, sp.Warm, sp.C1, sp.C2, sp.N1, sp.N2)
 		fmt.Printf("CONFIRMED=%v %s\n", ok, info)
+	case "protoplans":
+		t, err := drv.NewTrace(*out)
+		if err != nil {
+			panic(err)
+		}
+		drv.RunProtoPlans(*specFile, *part, *steps, t, 0)
+		t.Close()
+		fmt.Printf("events=%d\n", t.N)
 	case "bmap":
 		t, err := drv.NewTrace(*out)
 		if err != nil {
